@@ -803,6 +803,52 @@ def run_no_state(chk, F):
                key='E6a|%s|stateless%s' % (name, ('|' + mine[0]['qual']) if problems else ''))
 
 
+def run_value_follows_index(chk, F):
+    """E10-value-follows-index: in fill_and_pair the locals `i` (the current square) and `f` (its value, read by the
+    marking lambdas) move together: in every compound statement, after a statement that writes `i` the value `f` is
+    written (`f = input(..)`) before the next statement that is neither of the two - otherwise the cell is marked with
+    the value of the previous square (a corner vertex born at the value of another cell)."""
+    fs = [f for f in F.functions if f['name'] == 'fill_and_pair' and f.get('inst') in (0, 2) and
+          f.get('body') is not None]
+    if not fs:
+        raise AnalysisBroken('C14: fill_and_pair not found')
+    f = fs[0]
+
+    def writes(st, name):
+        return any((ir.write_target(y) is not None and ir.show(ir.write_target(y)) == name) or
+                   (y.get('k') == 'UnaryOperator' and y.get('op') in ('++', '--') and ir.show(y['c'][0]) == name)
+                   for y in ir.walk(st, into_lambdas=False))
+    n = 0
+    bad = None
+    for blk in ir.walk(f['body'], into_lambdas=False):
+        if blk.get('k') != 'CompoundStmt':
+            continue
+        stale = None
+        for st in blk.get('c') or []:
+            wi, wf = writes(st, 'i'), writes(st, 'f')
+            direct_i = wi and st.get('k') in ('BinaryOperator', 'CompoundAssignOperator', 'UnaryOperator')
+            if direct_i:
+                n += 1
+                stale = st
+                if wf:
+                    stale = None
+                continue
+            if wf and st.get('k') in ('BinaryOperator', 'CompoundAssignOperator'):
+                stale = None
+                continue
+            if stale is not None and st.get('k') not in ('DeclStmt', 'NullStmt'):
+                if bad is None:
+                    bad = (stale, st)
+                stale = None
+    if n == 0:
+        raise AnalysisBroken('C14: no assignment to the square index `i` found in fill_and_pair')
+    chk.ob('E10-value-follows-index', 'fill_and_pair: every move of the square index `i` is followed by a read of its '
+           'value into `f` before anything else (%d moves)' % n, '%s:%d' % (rel(f['file']), f['line']), bad is None,
+           '' if bad is None else 'line %s: `%s` moves the index and line %s goes on with the value of the previous '
+           'square' % (bad[0].get('l'), ir.show(bad[0])[:40], bad[1].get('l')),
+           key='E10|fill_and_pair|value-follows-index')
+
+
 def run(tier, replay=None):
     chk = Check('C14', tier,
                 'Static decision of structural clauses of the specialised routines. 2-D: fill_and_pair is evaluated '
@@ -824,6 +870,7 @@ def run(tier, replay=None):
     run_union_find(chk, F)
     run_line(chk, F)
     run_no_state(chk, F)
+    run_value_follows_index(chk, F)
     # Edge::operator< is the strict order on the edge value
     eo = [f for f in F.functions if f['name'] == 'operator<' and f.get('clsname') == 'Edge']
     if len(eo) == 1:
